@@ -44,6 +44,16 @@ CHECKS = {
     "C18": {"level": "exploration",
             "flavours": [("tsan", False, 40000, 800000), ("plain", False, 100000, 2000000), ("asan", False, 0, 300000)]},
 }
+PLACE = ["place_nested", "place_partial", "place_touch", "place_gap", "place_empty", "place_identical"]
+RELEVANT_PROBES = {
+    "C03": ["c03_compared", "mixed_order", "self_iadd", "post_failure_reuse"] + PLACE,
+    "C08": ["xgrid_call", "xgrid_refused", "eqgrid_distinct", "twin_compared"] + PLACE,
+    "C09": ["idx_in", "idx_edge", "idx_huge", "idx_wrap", "factor_inside", "moved_from_reuse", "post_failure_reuse",
+            "sweep_points", "last_owner_task"] + PLACE,
+    "C10": ["moved_from_reuse", "post_failure_reuse", "self_assign", "self_iadd", "sweep_points"],
+    "C14": ["sweep_points", "post_failure_reuse", "self_assign", "self_iadd", "eqgrid_distinct"],
+    "C18": ["msg_sent", "msg_recv", "last_owner_task"],
+}
 QUICK_WALL_CAP = 60.0       # seconds of run time per flavour before no new chunk is handed out
 THOROUGH_WALL_CAP = 600.0
 MAX_CLASSES = 3             # distinct violation classes minimised and reported per check
@@ -594,7 +604,16 @@ def do_check(check, tier, seed):
                                               for o in prog] for prog in p["progs"]]})
     wall = time.time() - t_start
     probes = agg.get("probes", {})
-    zero_probes = sorted(k for k, v in probes.items() if v == 0)
+    zero_probes = sorted(k for k in RELEVANT_PROBES[check] if probes.get(k, 0) == 0)
+    if check == "C18":
+        if agg.get("guard_contended", 0) == 0:
+            zero_probes.append("static_init_contended")
+        if agg.get("guard_aborts", 0) == 0:
+            zero_probes.append("static_init_aborted")
+    if zero_probes and tier == "thorough" and exit_code == 0:
+        # a silent blind spot is a machinery defect, not a pass (DESIGN §4)
+        log("MACHINERY-ERROR: coverage probes at zero in the thorough tier: " + ", ".join(zero_probes))
+        exit_code = 2
     ev = {
         "property_id": check,
         "tier": tier,
@@ -635,7 +654,8 @@ def do_check(check, tier, seed):
             "ops_compared_with_canonical_schedule": agg.get("canonical_compared_ops", 0),
             "tsan_reports": agg.get("tsan_reports", 0),
             "probes": probes,
-            "probes_at_zero": zero_probes,
+            "relevant_probes": RELEVANT_PROBES[check],
+            "relevant_probes_at_zero": zero_probes,
             "runs_stopped_by_other_property": foreign_truncated,
             "aborted_runs_attributed_elsewhere": aborted_foreign,
             "dead_runs": len(death_runs),
